@@ -117,6 +117,14 @@ func (r *MemoryModelRegistry) RegisterModels(ctx context.Context, endpointURL st
 	default:
 	}
 
+	// Reject the whole update before touching any index: a listing with an unnamed entry must
+	// leave the endpoint's previous attribution intact, not half-replaced.
+	for _, model := range models {
+		if model != nil && model.Name == "" {
+			return domain.NewModelRegistryError("register_models", endpointURL, model.Name, fmt.Errorf("model name cannot be empty"))
+		}
+	}
+
 	r.mu.Lock()
 	defer r.mu.Unlock()
 
